@@ -136,7 +136,7 @@ func runC05(c *Ctx) {
 						ft := astFields[tname+"."+f].Type()
 						if isInsList(ft) {
 							// nested body: must be ranged and each element printed recursively
-							c.Check(rangesAndRecurses(info, arm.Body, tname, f, fd.Name.Name), rNB, m+"."+f, loc, "nested instruction list is iterated and printed recursively", fmt.Sprintf("the instructions in %s.%s are not printed: nested code disappears on print", tname, f))
+							c.Check(rangesAndRecurses(info, arm.Body, tname, f, fd.Name.Name, listWalkers(pp, fd.Name.Name)), rNB, m+"."+f, loc, "nested instruction list is iterated and printed recursively", fmt.Sprintf("the instructions in %s.%s are not printed: nested code disappears on print", tname, f))
 							continue
 						}
 						c.Check(got[f], rIF, m+"."+f, loc, "field is printed", fmt.Sprintf("field %s.%s is stored by the parser but never read when printing %s: it cannot survive print->parse", tname, f, m))
@@ -312,10 +312,84 @@ func fieldsReadOn(info *types.Info, stmts []ast.Stmt, tname string) map[string]b
 }
 
 // rangesAndRecurses: `for _, x := range v.<field> { recurse(..., x, ...) }`.
-func rangesAndRecurses(info *types.Info, stmts []ast.Stmt, tname, field, recurse string) bool {
+// listWalkers finds the helper idiom "func walk(list []T) { for _, x := range list { recurse(x) } }": functions of the
+// package that range over one of their own parameters and hand each element to recurse (or to another walker).
+func listWalkers(pk *packages.Package, recurse string) map[*types.Func]bool {
+	info := pk.TypesInfo
+	out := map[*types.Func]bool{}
+	for changed := true; changed; {
+		changed = false
+		for _, f := range pk.Syntax {
+			for _, d := range f.Decls {
+				fd, ok := d.(*ast.FuncDecl)
+				if !ok || fd.Body == nil {
+					continue
+				}
+				obj, _ := info.Defs[fd.Name].(*types.Func)
+				if obj == nil || out[obj] {
+					continue
+				}
+				params := map[types.Object]bool{}
+				for _, fl := range fd.Type.Params.List {
+					for _, n := range fl.Names {
+						params[info.Defs[n]] = true
+					}
+				}
+				ast.Inspect(fd.Body, func(n ast.Node) bool {
+					rs, ok := n.(*ast.RangeStmt)
+					if !ok {
+						return true
+					}
+					id, ok := ast.Unparen(rs.X).(*ast.Ident)
+					if !ok || !params[info.ObjectOf(id)] {
+						return true
+					}
+					val, ok := rs.Value.(*ast.Ident)
+					if !ok {
+						return true
+					}
+					for _, call := range callsIn(info, rs.Body.List) {
+						cf := CalleeOf(info, call)
+						if cf == nil || !(cf.Name() == recurse || out[cf]) {
+							continue
+						}
+						for _, a := range call.Args {
+							if aid, ok := a.(*ast.Ident); ok && info.ObjectOf(aid) == info.ObjectOf(val) {
+								out[obj] = true
+								changed = true
+							}
+						}
+					}
+					return true
+				})
+			}
+		}
+	}
+	return out
+}
+
+func rangesAndRecurses(info *types.Info, stmts []ast.Stmt, tname, field, recurse string, walkers map[*types.Func]bool) bool {
 	found := false
+	isField := func(e ast.Expr) bool {
+		se, ok := ast.Unparen(e).(*ast.SelectorExpr)
+		if !ok || se.Sel.Name != field {
+			return false
+		}
+		sel, ok := info.Selections[se]
+		return ok && namedTypeName(sel.Recv()) == tname
+	}
 	for _, s := range stmts {
 		ast.Inspect(s, func(n ast.Node) bool {
+			// helper idiom: walk(x.Field)
+			if call, ok := n.(*ast.CallExpr); ok {
+				if cf := CalleeOf(info, call); cf != nil && walkers[cf] {
+					for _, a := range call.Args {
+						if isField(a) {
+							found = true
+						}
+					}
+				}
+			}
 			rs, ok := n.(*ast.RangeStmt)
 			if !ok {
 				return true
